@@ -2,14 +2,16 @@
 # re-evaluates every kept seeded change (seeded/<ID>-<v>/) against its property's quick check and refreshes meta.json["checks"]
 cd "$(dirname "$0")/.." || exit 2
 bad=0
+out=$(mktemp /tmp/seeded_eval_XXXXXX.json)
+trap 'rm -f "$out"' EXIT
 for d in ${@:-seeded/C*-*}; do
   if grep -q '"retired"' $d/meta.json; then echo "$d retired"; continue; fi
   id=$(echo $d | sed 's|seeded/\(C[0-9]*\)-.*|\1|')
   # a change written for one property but decided by another one names the deciding check in its meta.json
   other=$(python3 -c "import json,sys; print(json.load(open('$d/meta.json')).get('evaluate_with',''))")
   [ -n "$other" ] && id=$other
-  tools/seeded.py $d $id > /tmp/seeded_eval.json 2>&1
-  python3 - $d /tmp/seeded_eval.json $id <<'PY' || bad=$((bad+1))
+  tools/seeded.py $d $id > "$out" 2>&1
+  python3 - $d "$out" $id <<'PY' || bad=$((bad+1))
 import json,sys
 d,res,pid=sys.argv[1:4]
 r=json.load(open(res))
